@@ -112,6 +112,29 @@ func runReplay(bin string, r *Replay, dir, realDir string, trace bool, raceLog s
 	return &out, 0, nil
 }
 
+// confirmReplay runs a replay up to n times until the class shows up. Race
+// reports can be missed by ThreadSanitizer (bounded shadow cells per word,
+// evicted by an epoch-dependent rule) but are never invented, so retrying is
+// sound; every other class reproduces on the first attempt or not at all.
+func confirmReplay(bin string, r *Replay, class, dir, realDir string, trace bool, raceLog string, n int) (*Replay, error) {
+	if class != "race" {
+		n = 1
+	}
+	var lastErr error
+	for i := 0; i < n; i++ {
+		out, code, err := runReplay(bin, r, dir, realDir, trace, raceLog)
+		if err != nil || code != 0 {
+			lastErr = fmt.Errorf("replay did not execute (exit %d): %v", code, err)
+			continue
+		}
+		if hasClass(out, class) {
+			return out, nil
+		}
+		lastErr = fmt.Errorf("class %s not observed", class)
+	}
+	return nil, lastErr
+}
+
 func hasClass(r *Replay, class string) bool {
 	for _, f := range r.Failures {
 		if f.Class == class {
@@ -145,6 +168,11 @@ func minimise(bin string, orig Replay, dir, realDir string, budget time.Duration
 		out, code, err := runReplay(bin, &c, dir, realDir, false, "")
 		if err != nil || code != 0 || out == nil || !hasClass(out, class) {
 			return false
+		}
+		if class == "race" { // must hold up twice: keeps flaky reports out of the minimised file
+			if o2, c2, e2 := runReplay(bin, &c, dir, realDir, false, ""); e2 != nil || c2 != 0 || o2 == nil || !hasClass(o2, class) {
+				return false
+			}
 		}
 		pick(out, class)
 		out.Seed, out.Subseed, out.Race = orig.Seed, orig.Subseed, orig.Race
@@ -336,22 +364,22 @@ func judge(prop string, seed uint64, failures []Replay, info *prepInfo, bins map
 			bins[f.Race], bin = b, b
 		}
 		// confirm in a fresh process first
-		out, code, err := runReplay(bin, &f, dir, realDir, false, "")
-		if err != nil || code != 0 {
-			fatal2("replay of a failing run did not execute: %v", err)
-		}
-		if !hasClass(out, f.Class) {
-			fatal2("failing run %s (class %s) did not reproduce in a fresh process: harness nondeterminism", f.Subseed, f.Class)
+		if _, err := confirmReplay(bin, &f, f.Class, dir, realDir, false, "", 4); err != nil {
+			fatal2("failing run %s (class %s) did not reproduce in a fresh process (%v): harness nondeterminism", f.Subseed, f.Class, err)
 		}
 		min, tried := minimise(bin, f, dir, realDir, 90*time.Second, 220)
-		// final confirmation, with trace (and race log when applicable)
+		// final confirmation, with trace (and race log when applicable); fall
+		// back to the confirmed original when the minimised file does not hold up
 		logPrefix := ""
 		if f.Race {
 			logPrefix = filepath.Join(dir, "racelog-"+f.Subseed)
 		}
-		final, code, err := runReplay(bin, &min, dir, realDir, true, logPrefix)
-		if err != nil || code != 0 || !hasClass(final, f.Class) {
-			fatal2("minimised replay did not reproduce (class %s): %v", f.Class, err)
+		final, err := confirmReplay(bin, &min, f.Class, dir, realDir, true, logPrefix, 4)
+		if err != nil {
+			min, tried = f, 0
+			if final, err = confirmReplay(bin, &min, f.Class, dir, realDir, true, logPrefix, 6); err != nil {
+				fatal2("confirmed failure (class %s) stopped reproducing: %v", f.Class, err)
+			}
 		}
 		pick(final, f.Class)
 		final.Seed, final.Subseed, final.Race, final.Minimised = f.Seed, f.Subseed, f.Race, true
@@ -382,7 +410,13 @@ func judge(prop string, seed uint64, failures []Replay, info *prepInfo, bins map
 		b, _ := json.MarshalIndent(final, "", " ")
 		os.WriteFile(path, append(b, '\n'), 0o644)
 		fmt.Printf("violation: property=%s class=%s: %s\n", prop, final.Class, oneLine(final.Message, 600))
-		violations = append(violations, path)
+		dup := false
+		for _, v := range violations {
+			dup = dup || v == path
+		}
+		if !dup {
+			violations = append(violations, path)
+		}
 	}
 	return violations, knownHits
 }
@@ -473,7 +507,7 @@ func determinismSelftest(prop, tier string, seed uint64, bins map[bool]string, r
 			}
 		}
 		total += len(ref)
-		res[fmt.Sprintf("race_build_%v", race)] = fmt.Sprintf("%d sub-seeds x 3 processes (GOMAXPROCS 1, 16, 4): identical event-log hashes, result hashes, race-report counts and verdicts", len(ref))
+		res[fmt.Sprintf("race_build_%v", race)] = fmt.Sprintf("%d sub-seeds x 3 processes (GOMAXPROCS 1, 16, 4): identical event-log hashes, result hashes and verdicts", len(ref))
 	}
 	res["subseeds_compared"] = total
 	return res, nil
